@@ -61,6 +61,20 @@ def _terms_ref(mk, L, cyclic, mode, with_h1):
             a = mk.array(f"H2_{b[1]}{b[0]}", (d * d, d * d), "cplx")
             H2[(b[1], b[0])] = a
             per_bond[(b[1], b[0])] = a
+    elif mode in ("default+override", "default+override-flipped"):
+        # a default (None) term plus site-specific overrides, keyed in the loop's orientation or the
+        # opposite one (incl. the periodic boundary bond given as (0, L-1))
+        a = mk.array("H2", (d * d, d * d), "cplx")
+        H2 = {None: a}
+        per_bond = {b: a for b in bonds}
+        flip = mode.endswith("flipped")
+        for k, b in enumerate(bonds):
+            if k % 2 == 0 or k == len(bonds) - 1:
+                o = mk.array(f"H2o_{b[0]}{b[1]}", (d * d, d * d), "cplx")
+                key = (b[1], b[0]) if flip else b
+                H2[key] = o
+                del per_bond[b]
+                per_bond[key] = o
     else:
         a = mk.array("H2", (d * d, d * d), "cplx")
         H2 = a
@@ -86,6 +100,9 @@ _HP = [{"L": L, "cyclic": c, "mode": m, "h1": h,
         "_tiers": ("quick", "thorough") if (L <= 4 and not (m == "dict-flipped" and h == "single")) else ("thorough",)}
        for L in (2, 3, 4, 5) for c in (False, True) for m in ("dict", "single", "dict-flipped") for h in (None, "dict", "single")
        if not (c and L == 2)]
+_HP += [{"L": L, "cyclic": c, "mode": m, "h1": h, "_tiers": ("quick", "thorough") if (L <= 4 and h is None) or L == 3 else ("thorough",)}
+        for L in (2, 3, 4, 5) for c in (False, True) for m in ("default+override", "default+override-flipped") for h in (None, "dict")
+        if not (c and L == 2)]
 
 
 @obligation(PROP, params=_HP)
@@ -167,26 +184,37 @@ def _uninstall_expm(rec):
 # ---------------------------------------------------------------------- (b) bookkeeping with recorders
 
 class RecMPS:
-    """stands in for the MPS: records which two-site gate (token) is applied where"""
+    """stands in for the MPS: records which two-site gate (token) is applied where, and tracks where
+    the canonicalisation calls and the absorb options put the orthogonality centre (None = unknown)"""
 
     def __init__(self, L, log):
         self.L = L
         self.log = log
+        self.centre = None
+        self.norm_log = []
 
-    def left_canonize(self, *a, **k):
-        pass
+    def left_canonize(self, start=None, stop=None, **k):
+        # sweeps the centre from `start` to `stop` only if it is inside [start, stop]
+        if stop is not None and self.centre is not None and (start is None or start <= self.centre <= stop):
+            self.centre = stop
 
-    def right_canonize(self, *a, **k):
-        pass
+    def right_canonize(self, start=None, stop=None, **k):
+        if stop is not None and self.centre is not None and (start is None or stop <= self.centre <= start):
+            self.centre = stop
 
-    def left_canonize_site(self, *a, **k):
-        pass
+    def left_canonize_site(self, i, **k):
+        if self.centre == i:
+            self.centre = (i + 1) % self.L
 
-    def right_canonize_site(self, *a, **k):
-        pass
+    def right_canonize_site(self, i, **k):
+        if self.centre == i:
+            self.centre = (i - 1) % self.L
 
     def gate_split_(self, U, where, absorb=None, **opts):
         self.log.append(("gate", tuple(where), U))
+        a, b = where
+        if self.centre is None or self.centre in (a, b):
+            self.centre = {"right": b, "left": a}.get(absorb)
 
     def max_bond(self):
         return 1
@@ -195,6 +223,7 @@ class RecMPS:
         return self
 
     def __getitem__(self, i):
+        self.norm_log.append((i, self.centre))
         return _UnitNorm()
 
     def __setitem__(self, i, v):
@@ -268,10 +297,14 @@ _BK = [{"L": L, "cyclic": c, "order": o, "targets": n, "m": m,
         "_tiers": ("quick", "thorough") if (m == 3 and L in (3, 4) and not (n == 2 and o == 4)) else ("thorough",)}
        for L in (3, 4, 5, 6) for c in (False, True) for o in (1, 2, 4) for n in (1, 2) for m in (3, 4)
        if not (L == 6 and m == 4)]
+# the same bookkeeping for the states *yielded* by at_times at intermediate target times
+_BK += [{"L": L, "cyclic": c, "order": o, "targets": n, "m": 3, "via": "at_times",
+         "_tiers": ("quick", "thorough") if (L == 3 and n == 2 and o in (1, 2)) or (L == 4 and n == 2 and o == 2 and not c) else ("thorough",)}
+        for L in (3, 4) for c in (False, True) for o in (1, 2, 4) for n in (2, 3)]
 
 
 @obligation(PROP, params=_BK, max_paths=400, wall_s=300, timeout_s=400, exc_is_violation=False)
-def time_bookkeeping(mk, L, cyclic, order, targets, m):
+def time_bookkeeping(mk, L, cyclic, order, targets, m, via="update_to"):
     """update_to / at_times with symbolic t0, dt, T: exact arrival, product formula structure"""
     mk.encodes(qtn.TEBD.update_to, qtn.TEBD.step, qtn.TEBD.sweep, qtn.TEBD._compute_sweep_dt_tol, qtn.TEBD.at_times,
                tg.trotter_schedule, qtn.TEBD._get_gate_from_ham)
@@ -294,10 +327,15 @@ def time_bookkeeping(mk, L, cyclic, order, targets, m):
     bonds = chain_bonds(L, cyclic)
     pos = 0
     prev_T = t0
+    gen = tb.at_times(list(Ts), dt=dt, order=order, progbar=False) if via == "at_times" else None
     for j, T in enumerate(Ts):
         n0 = len(steps)
         l0 = len(log)
-        if targets == 1:
+        if gen is not None:
+            # everything below is checked at the moment the state for target j is handed out
+            yielded = next(gen)
+            mk.same(f"target {j}: at_times yields the evolved state", yielded is tb._pt, True)
+        elif targets == 1:
             tb.update_to(T, dt=None, order=order, progbar=False)
         else:
             tb.update_to(T, dt=dt, tol=False, order=order, progbar=False)
@@ -367,6 +405,11 @@ def time_bookkeeping(mk, L, cyclic, order, targets, m):
             else:
                 mk.check(amt == ra, f"target {j}: merged sweep {q} amount == merged formula amount")
         prev_T = T
+    # imaginary time: the tensor renormalised after a sweep must be the one holding the norm, i.e. the
+    # orthogonality centre as tracked through the canonicalisation calls / absorb options
+    for site, centre in tb._pt.norm_log:
+        if centre is not None:
+            mk.same("imaginary time: the renormalised site is the orthogonality centre", site, centre)
     # layers: disjoint bonds within a layer (commuting), except the documented odd periodic case
     for lay in ("right", "left"):
         bs = [b for b in bonds if layer_of(b, L, cyclic) == lay]
@@ -414,10 +457,13 @@ _RS = [{"L": L, "cyclic": c, "order": o,
         "_tiers": ("quick", "thorough") if ((L == 3 and not (c and o == 2)) or (L == 4 and o == 1 and not c)) else ("thorough",),
         "_mandatory": not c or (L == 3 and o == 1)}
        for L in (3, 4) for c in (False, True) for o in (1, 2)]
+# imaginary time: same product (real exponents) followed by the documented renormalisation
+_RS += [{"L": 3, "cyclic": False, "order": o, "imag": True, "_tiers": ("thorough",), "_mandatory": False} for o in (1, 2)]
+_RS += [{"L": 4, "cyclic": False, "order": 1, "imag": True, "_tiers": ("thorough",), "_mandatory": False}]
 
 
 @obligation(PROP, params=_RS, rounds=2, timeout_s=500, wall_s=400, max_rows=80000)
-def real_step(mk, L, cyclic, order):
+def real_step(mk, L, cyclic, order, imag=False):
     """one step through the real sweeps: state == reference product, generators as documented"""
     mk.encodes(qtn.TEBD.__init__, qtn.TEBD.step, qtn.TEBD.sweep, qtn.TEBD._get_gate_from_ham, tg.LocalHamGen.get_gate_expm)
     nb = L if cyclic else L - 1
@@ -430,7 +476,7 @@ def real_step(mk, L, cyclic, order):
     rec = _install_expm(mk)
     dt = 0.25
     try:
-        tb = qtn.TEBD(psi, ham, dt=dt, progbar=False, split_opts={"cutoff": 0.0})
+        tb = qtn.TEBD(psi, ham, dt=dt, progbar=False, split_opts={"cutoff": 0.0}, imag=imag)
         tb.step(order=order)
         out = tb.pt
         vt = ref.tn_dense(out, tuple(out.site_ind(i) for i in range(L))).reshape(-1)
@@ -449,7 +495,7 @@ def real_step(mk, L, cyclic, order):
                 pass
             for b, frac in seq:
                 # the exponential the library must have used for this (bond, fraction)
-                want_gen = H2[b] * P.lift(-1j * dt * frac)
+                want_gen = H2[b] * P.lift((-1.0 if imag else -1j) * dt * frac)
                 hit = None
                 for key, E in rec["by_content"].items():
                     A = rec["args"][id(E)]
@@ -463,7 +509,18 @@ def real_step(mk, L, cyclic, order):
         else:
             import scipy.linalg as sla
             for b, frac in seq:
-                v = ref.matmul(ref.embed(sla.expm(H2[b] * (-1j * dt * frac)), dims, b), v)
-        mk.eq("state after one step == product formula applied to the initial state", vt, v)
+                v = ref.matmul(ref.embed(sla.expm(H2[b] * ((-1.0 if imag else -1j) * dt * frac)), dims, b), v)
+        if imag:
+            # renormalised after every sweep: proportional to the product formula, and of unit norm
+            n = len(v)
+            mk.eq("imaginary time: state after one step is proportional to the product formula",
+                  np.array([vt[i] * v[j] for i in range(n) for j in range(i + 1, n)], dtype=vt.dtype),
+                  np.array([vt[j] * v[i] for i in range(n) for j in range(i + 1, n)], dtype=vt.dtype))
+            tot = 0
+            for x in vt:
+                tot = tot + x * (x.conjugate() if mk.sym else np.conj(x))
+            mk.eq("imaginary time: state after one step is normalised", tot, 1)
+        else:
+            mk.eq("state after one step == product formula applied to the initial state", vt, v)
     finally:
         _uninstall_expm(rec)
